@@ -366,5 +366,17 @@ void operator delete[](void *p) noexcept {
     if (p && vh::t_count) vh::g_deletes_arr.fetch_add(1, std::memory_order_relaxed);
     ::operator delete(p);
 }
-void operator delete(void *p, std::size_t) noexcept { ::operator delete(p); }
+// sized deallocation: the size must be the size the block was allocated with (what ASan's new-delete-type-mismatch checks
+// when operator delete is not replaced); a mismatch ends the case like a sanitizer report would
+void operator delete(void *p, std::size_t sz) noexcept {
+    if (p && vh::t_count) {
+        sh::Block b = sh::g_reg.find(p);
+        if (b.found && b.base == p && b.size != sz) {
+            std::fprintf(stderr, "==SIZED-DELETE== AddressSanitizer: new-delete-type-mismatch (harness): block of %zu bytes released with size %zu\n", b.size, sz);
+            std::fflush(stderr);
+            std::_Exit(77);
+        }
+    }
+    ::operator delete(p);
+}
 void operator delete[](void *p, std::size_t) noexcept { ::operator delete[](p); }
